@@ -147,12 +147,14 @@ theorem C14_KF2_witness :
 
 /-! ## Second half: the concurrent listener (`Fit.Listener`, a transition system over listener.go)
 
-Quantifiers: every channel-buffer size N ≥ 1 (initially and in every `Reset`), every script of `OnMesg` / `File` / `Close` /
-`Reset` calls of any length (chained sequences, reuse after Reset/Close), every interleaving of producer and worker
-(`Reachable` closes over both threads' steps). Generic in the message type and in `processMesg`.
+Quantifiers: **every** channel-buffer size N ≥ 0 (initially and in every `Reset`; size 0 = unbuffered message channel and a
+one-slice pool, as the code does since the repair of KF-C14-1), every script of `OnMesg` / `File` / `Close` / `Reset` calls of
+any length (chained sequences, reuse after Reset/Close, Reset from n to 0 and back), every interleaving of producer and worker
+(`Reachable` closes over both threads' steps). Generic in the message type and in `processMesg`. No theorem below has a
+hypothesis on N or on the script.
 
-Runtime truth vs. proved: the theorems are about the model's channel semantics (Go spec: buffered send/receive, close,
-nil channel) and its slice tokens. That the compiled listener has no word-level data race is sampled with the race
+Runtime truth vs. proved: the theorems are about the model's channel semantics (Go spec: buffered send/receive, unbuffered
+rendezvous, close) and its slice tokens. That the compiled listener has no word-level data race is sampled with the race
 detector (thorough tier), not proved; what is proved is that in the model no slice and no access to `l.file` is ever
 shared between the two threads (`C14_listener_inv`). -/
 section Listener
@@ -160,60 +162,79 @@ open Fit.Listener
 variable {M σ : Type} (proc : σ → M → σ) (init : σ)
 
 /-- **Exclusive ownership** (`listener_inv`): in every reachable state every pooled slice is in exactly one place —
-pool channel, message queue, producer's hands, worker's hands (no duplicates among them) — and none is lost (N in total);
-the producer touches the file cell (`File` reads it, `reset()` overwrites it — both only after `<-l.done` or while
-inactive) only when the worker has exited. -/
-theorem C14_listener_inv {N : Nat} {script : List (Cmd M)} (hN : 1 ≤ N) (hs : PosScript script) {s : St M σ}
+pool channel, message queue, producer's hands, worker's hands (no duplicates among them) — and none is lost
+(`cap(l.poolc)` = max(N, 1) in total, so at least one slice circulates even with buffer size 0); the message channel never
+holds more than its capacity N; the producer touches the file cell (`File` reads it, `reset()` overwrites it — both only
+after `<-l.done` or while inactive) only when the worker has exited. -/
+theorem C14_listener_inv {N : Nat} {script : List (Cmd M)} {s : St M σ}
     (hr : Reachable proc init N script s) :
-    (tokens s).Nodup ∧ (tokens s).length = s.N ∧ (s.done = true ↔ s.c = .exited) ∧ (s.active = false → s.c = .exited) := by
-  have inv := inv_reachable proc init hN hs hr
-  exact ⟨inv.nodup, inv.count, inv.doneIff, fun h => (inv.inactive h).2⟩
+    (tokens s).Nodup ∧ (tokens s).length = s.P ∧ s.P = max s.N 1 ∧ s.queue.length ≤ s.N ∧
+    (s.done = true ↔ s.c = .exited) ∧ (s.active = false → s.c = .exited) := by
+  have inv := inv_reachable proc init hr
+  exact ⟨inv.nodup, inv.count, inv.capP, inv.qcap, inv.doneIff, fun h => (inv.inactive h).2⟩
 
 /-- **Deadlock freedom**: in every reachable state in which the producer still has calls to make or to finish, some
-thread can take a step — for every N ≥ 1 and every interleaving. -/
-theorem C14_listener_deadlock_free {N : Nat} {script : List (Cmd M)} (hN : 1 ≤ N) (hs : PosScript script) {s : St M σ}
+thread can take a step — for every buffer size N ≥ 0, every script and every interleaving. -/
+theorem C14_listener_deadlock_free {N : Nat} {script : List (Cmd M)} {s : St M σ}
     (hr : Reachable proc init N script s) (hfin : isFin s.p = false) : ∃ s', Step proc init s s' := by
-  rcases progress proc init (inv_reachable proc init hN hs hr) hfin with h | h
+  rcases progress proc init (inv_reachable proc init hr) hfin with h | h
   · obtain ⟨s', hs'⟩ := Option.isSome_iff_exists.mp h; exact ⟨s', Or.inl hs'⟩
   · obtain ⟨s', hs'⟩ := Option.isSome_iff_exists.mp h; exact ⟨s', Or.inr hs'⟩
 
+/-- the same in the words of the former known finding KF-C14-1 (whose theorem exhibited a reachable `Deadlocked` state for
+buffer size 0): no reachable state is deadlocked, whatever the buffer sizes. -/
+theorem C14_listener_never_deadlocked {N : Nat} {script : List (Cmd M)} {s : St M σ}
+    (hr : Reachable proc init N script s) : ¬ Deadlocked proc init s := by
+  intro ⟨hfin, hp, hc⟩
+  rcases progress proc init (inv_reachable proc init hr) hfin with h | h
+  · rw [hp] at h; cases h
+  · rw [hc] at h; cases h
+
 /-- **The listener equals sequential execution** (`listener_fifo` ⇒): whenever the producer has made all its calls, the
-files handed out by `File()` are exactly those of the same calls executed by one thread without pool, queue or worker. -/
-theorem C14_listener_eq_sequential {N : Nat} {script : List (Cmd M)} (hN : 1 ≤ N) (hs : PosScript script) {s : St M σ}
+files handed out by `File()` are exactly those of the same calls executed by one thread without pool, queue or worker —
+for every buffer size N ≥ 0. -/
+theorem C14_listener_eq_sequential {N : Nat} {script : List (Cmd M)} {s : St M σ}
     (hr : Reachable proc init N script s) (hfin : isFin s.p = true) :
     s.results = seqRun proc init true init script :=
-  final_results proc init (inv_reachable proc init hN hs hr) hfin
+  final_results proc init (inv_reachable proc init hr) hfin
 
 /-- **No carry-over**: whenever the listener is inactive (after `File`/`Close`) the worker is gone, the queue is empty
-and all N slices are back in the pool (distinct); the next `OnMesg` starts from the empty file cell. -/
-theorem C14_listener_no_carry_over {N : Nat} {script : List (Cmd M)} (hN : 1 ≤ N) (hs : PosScript script) {s : St M σ}
+and all `cap(l.poolc)` slices are back in the pool (distinct); the next `OnMesg` starts from the empty file cell. -/
+theorem C14_listener_no_carry_over {N : Nat} {script : List (Cmd M)} {s : St M σ}
     (hr : Reachable proc init N script s) (ha : s.active = false) :
-    s.c = .exited ∧ s.queue = [] ∧ s.pool.length = s.N ∧ s.pool.Nodup ∧
+    s.c = .exited ∧ s.queue = [] ∧ s.pool.length = s.P ∧ s.pool.Nodup ∧
     ∀ m cs s', s.script = .onMesg m :: cs → stepP init s = some s' → s'.file = init ∧ s'.queue = [] ∧ s'.pool = s.pool :=
-  no_carry_over proc init (inv_reachable proc init hN hs hr) ha
+  no_carry_over proc init (inv_reachable proc init hr) ha
 
 /-- the run the driver prints (a seeded scheduler) is one of the interleavings the theorems quantify over -/
 theorem C14_listener_run_is_path {N : Nat} {script : List (Cmd M)} (pick : Nat → Bool) (fuel : Nat) :
     Reachable proc init N script (run proc init pick fuel 0 (initSt init N script)) :=
   run_reachable proc init pick fuel 0 _ Reachable.init
 
-/-- **Known finding KF-C14-1 (F15)**: with channel-buffer size 0 a deadlock is reachable as soon as a message arrives —
-initially, and after `Reset(WithChannelBuffer(0))`. (So `1 ≤ N` / `PosScript` above cannot be dropped.) -/
-theorem C14_KF1_buffer0_deadlock (m : M) (cs : List (Cmd M)) :
-    (∃ s : St M σ, Reachable proc init 0 (.onMesg m :: cs) s ∧ Deadlocked proc init s) ∧
-    (∃ s : St M σ, Reachable proc init 1 (.reset 0 :: .onMesg m :: cs) s ∧ Deadlocked proc init s) :=
-  ⟨buffer0_deadlock proc init m cs, buffer0_after_reset_deadlock proc init m cs⟩
+/-- **Buffer size 0 hands over synchronously**: while the channel buffer size is 0 nothing is ever queued (the message goes
+from `OnMesg` straight into the worker's hands) and exactly one slice circulates. -/
+theorem C14_listener_unbuffered_handover {N : Nat} {script : List (Cmd M)} {s : St M σ}
+    (hr : Reachable proc init N script s) (h0 : s.N = 0) : s.queue = [] ∧ (tokens s).length = 1 := by
+  have inv := inv_reachable proc init hr
+  refine ⟨unbuffered_queue_empty proc init inv h0, ?_⟩
+  rw [inv.count, inv.capP, h0]; rfl
+
+/-- **Buffer size 0 works** (replaces `C14_KF1_buffer0_deadlock` of the tree before the repair of KF-C14-1, F15): the two
+former deadlock witnesses — `NewListener(WithChannelBuffer(0))` and `Reset(WithChannelBuffer(0))`, then a message, then
+`File()` — have runs in which the producer finishes with the file of that message (by `C14_listener_eq_sequential` every
+finished run yields it, by `C14_listener_deadlock_free` no run gets stuck); `Reset` back to a larger size re-grows the pool.
+These states also witness the hypotheses `isFin s.p = true` / `s.N = 0` of the theorems above (non-vacuity). -/
+theorem C14_listener_buffer0_completes (m m' : M) :
+    (∃ s : St M σ, Reachable proc init 0 [.onMesg m, .file] s ∧ isFin s.p = true ∧ s.results = [proc init m]) ∧
+    (∃ s : St M σ, Reachable proc init 2 [.reset 0, .onMesg m, .file, .reset 2, .onMesg m', .file] s ∧ isFin s.p = true ∧
+      s.results = [proc init m, proc init m'] ∧ s.P = 2 ∧ s.pool.length = 2) :=
+  ⟨buffer0_completes proc init m, buffer0_after_reset_completes proc init m m'⟩
 
 end Listener
 
-/-- the full demand: for EVERY buffer size (0 included) no reachable deadlock — false, see `C14_KF1_buffer0_deadlock` -/
-def C14_listener_deadlock_free_full : Prop :=
-  ∀ (N : Nat) (script : List (Listener.Cmd Msg)) (s : Listener.St Msg Listener.FileCell),
-    Listener.Reachable Listener.processMesg none N script s → ¬ Listener.Deadlocked Listener.processMesg none s
-
 /-- **Listener = sequential building of a file**: for a sequence that starts with a file_id of a known file type `T` and has
 no other file_id, the one-thread specification (and therefore, by `C14_listener_eq_sequential`, the concurrent listener
-under every schedule and every N ≥ 1) yields exactly `filedef.NewT(msgs...)`. -/
+under every schedule and every N ≥ 0) yields exactly `filedef.NewT(msgs...)`. -/
 theorem C14_listener_builds_file {T : FileType} (fid : Msg) (rest : List Msg)
     (h0 : fid.num = mesgNumFileId) (hT : fileTypeOf fid.ft = some T) (hrest : ∀ m ∈ rest, m.num ≠ mesgNumFileId) :
     Listener.seqRun Listener.processMesg none true none ((fid :: rest).map .onMesg ++ [.file]) =
@@ -223,11 +244,15 @@ theorem C14_listener_builds_file {T : FileType} (fid : Msg) (rest : List Msg)
   rw [Listener.foldl_processMesg T rest hrest]
   rfl
 
-/-- non-vacuity of the hypotheses: buffer size 1, a script with a Reset to size 2 -/
-example : (1 : Nat) ≤ 1 ∧ Listener.PosScript ([.onMesg (default : Msg), .reset 2, .file] : List (Listener.Cmd Msg)) := by
-  refine ⟨Nat.le_refl 1, ?_⟩
-  intro n h
-  simp at h
-  omega
+/-- non-vacuity: with buffer size 0 there are reachable states in which the producer is in the middle of `OnMesg`
+(`isFin = false`, hypothesis of `C14_listener_deadlock_free`; `N = 0`, hypothesis of `C14_listener_unbuffered_handover`) and
+reachable states in which the listener is inactive after `Close` (hypothesis of `C14_listener_no_carry_over`) -/
+example : ∃ s : Listener.St Msg Listener.FileCell,
+    Listener.Reachable Listener.processMesg none 0 [.onMesg default, .file] s ∧ Listener.isFin s.p = false ∧ s.N = 0 :=
+  ⟨_, Listener.reachable_runSched Listener.processMesg none [true, true] _ _ Listener.Reachable.init rfl, rfl, rfl⟩
+
+example : ∃ s : Listener.St Msg Listener.FileCell,
+    Listener.Reachable Listener.processMesg none 0 [.close, .onMesg default] s ∧ s.active = false ∧ s.N = 0 :=
+  ⟨_, Listener.reachable_runSched Listener.processMesg none [true, true, true, false, true] _ _ Listener.Reachable.init rfl, rfl, rfl⟩
 
 end Fit.C14
